@@ -113,6 +113,7 @@ pub fn canary_world() -> Snap {
         p("outside/canary/link_to_file"),
         Node::Symlink { target: p("file_a") },
     );
+    s.insert(p("outside/canary/layer.toml"), f("[metadata]\nversion = \"1\"\n", 0o644));
     s.insert(p("outside/target_dir"), d(0o700));
     s.insert(p("outside/target_dir/keep.txt"), f("keep me", 0o600));
     s.insert(p("outside/target_dir/sub"), d(0o500));
@@ -177,8 +178,18 @@ impl Model {
         matches!(self.snap.get(&self.ldir(i)), Some(Node::Symlink { .. }))
     }
 
+    /// where reads and writes of <name>.toml end up (the file itself, or what a link there
+    /// resolves to)
+    fn toml_node_path(&self, i: usize) -> Vec<u8> {
+        let t = self.ltoml(i);
+        match self.snap.get(&t) {
+            Some(Node::Symlink { .. }) => self.snap.resolve(&t, &self.root_abs).unwrap_or(t),
+            _ => t,
+        }
+    }
+
     pub fn read_toml(&self, i: usize) -> Option<(Option<Types>, Option<toml::Table>)> {
-        let Some(Node::File { data, .. }) = self.snap.get(&self.ltoml(i)) else {
+        let Some(Node::File { data, .. }) = self.snap.get(&self.toml_node_path(i)) else {
             return None;
         };
         Some(parse_layer_toml(data).unwrap_or((None, None)))
@@ -186,7 +197,7 @@ impl Model {
 
     fn write_toml(&mut self, i: usize, types: Option<Types>, md: Option<toml::Table>) {
         let data = emit_layer_toml(types, md.as_ref());
-        let path = self.ltoml(i);
+        let path = self.toml_node_path(i);
         let mode = match self.snap.get(&path) {
             Some(Node::File { mode, .. }) => *mode,
             _ => 0o644,
@@ -347,6 +358,11 @@ impl Model {
     fn replace_execd(&mut self, i: usize, progs: &[ExecDSpec]) -> bool {
         let l = self.ldir(i);
         let e = join(&l, b"exec.d");
+        if self.snap.get(&e).is_some_and(|n| !n.is_dir()) && !self.snap.resolves_to_dir(&e, &self.root_abs) {
+            // a stray file (or dangling link) named exec.d is left alone; programs cannot be
+            // written next to it
+            return progs.is_empty();
+        }
         self.snap.remove_tree(&e);
         if progs.is_empty() {
             return true;
@@ -583,6 +599,18 @@ impl Model {
                 // the callbacks), and only once
                 self.dir_is_real_dir(*layer) && self.snap.contains(&self.ltoml(*layer))
             }
+            Op::TomlLink { layer, .. } => {
+                self.dir_is_real_dir(*layer) && self.snap.get(&self.ltoml(*layer)).is_some_and(Node::is_file)
+            }
+            Op::ExecDAlias { layer, from, to, .. } => {
+                let e = join(&self.ldir(*layer), b"exec.d");
+                from != to
+                    && self.dir_is_real_dir(*layer)
+                    && self.snap.get(&e).is_some_and(Node::is_dir)
+                    && self.snap.get(&join(&e, from.as_bytes())).is_some_and(Node::is_file)
+                    && !self.snap.get(&join(&e, to.as_bytes())).is_some_and(Node::is_dir)
+            }
+            Op::ChmodLayer { layer, .. } => self.dir_is_real_dir(*layer),
             Op::SbomLink { layer, format, .. } => {
                 *format < 3
                     && self.dir_is_real_dir(*layer)
@@ -816,6 +844,34 @@ impl Model {
                 self.snap.insert(l, Node::Symlink { target: t });
                 self.live.remove(layer);
                 self.refs.remove(layer);
+                Expectation::simple(ExpResult::NoCall)
+            }
+            Op::TomlLink { layer, abs } => {
+                let path = self.ltoml(*layer);
+                let t = if *abs {
+                    LinkTarget::Abs(p("outside/canary/layer.toml"))
+                } else {
+                    LinkTarget::Rel(p("outside/canary/layer.toml"))
+                };
+                let target = self.link_target_bytes(&path, &t);
+                self.snap.insert(path, Node::Symlink { target });
+                Expectation::simple(ExpResult::NoCall)
+            }
+            Op::ExecDAlias { layer, from, to, hard } => {
+                let e = join(&self.ldir(*layer), b"exec.d");
+                let dst = join(&e, to.as_bytes());
+                if *hard {
+                    if let Some(n) = self.snap.get(&join(&e, from.as_bytes())).cloned() {
+                        self.snap.insert(dst, n);
+                    }
+                } else {
+                    self.snap.insert(dst, Node::Symlink { target: from.as_bytes().to_vec() });
+                }
+                Expectation::simple(ExpResult::NoCall)
+            }
+            Op::ChmodLayer { layer, mode } => {
+                let d = self.ldir(*layer);
+                self.snap.insert(d, Node::Dir { mode: *mode });
                 Expectation::simple(ExpResult::NoCall)
             }
             Op::SbomLink { layer, format, kind } => {
